@@ -7,6 +7,8 @@ package main
 // that it can be compared with a spec term.  Nothing is executed.
 
 import (
+	"sort"
+	"strconv"
 	"fmt"
 	"go/token"
 	"go/types"
@@ -154,9 +156,18 @@ func (t *termer) Term(v ssa.Value) string {
 		}
 		if x.High != nil {
 			hi = t.scalar(x.High)
+			// arr[:N] of an [N]T is the whole array
+			if k, ok := intConst(x.High); ok {
+				if n, okN := constLen(x.X.Type()); okN && n == k {
+					hi = ""
+				}
+			}
 		}
 		if lo == "0" {
 			lo = ""
+		}
+		if lo == "" && hi == "" {
+			return base
 		}
 		return base + "[" + lo + ":" + hi + "]"
 	case *ssa.BinOp:
@@ -258,6 +269,9 @@ func (t *termer) allocTerm(a *ssa.Alloc, load ssa.Instruction) string {
 		in      ssa.Instruction
 		term    func() string
 		unknown string // non-empty: something that may write the object in a way that is not modelled
+		// copy of pieceLen bytes to constant offset pieceLo (pieceLo < 0: not such a piece)
+		pieceLo, pieceLen int64
+		src               func() string
 	}
 	var ws []writer
 	var scan func(v ssa.Value, lo string)
@@ -286,13 +300,23 @@ func (t *termer) allocTerm(a *ssa.Alloc, load ssa.Instruction) string {
 				id := t.p.CalleeID(cm)
 				switch {
 				case id == "builtin:copy" && cm.Args[0] == v:
-					ws = append(ws, writer{in: x, term: func() string {
+					w := writer{in: x, term: func() string {
 						src := t.Term(cm.Args[1])
 						if lo == "0" || lo == "" {
 							return src
 						}
 						return "at(" + lo + "," + src + ")"
-					}})
+					}, pieceLo: -1}
+					// a piece of a tiling: constant offset, source of known length that fits the destination
+					if l, err := strconv.ParseInt(lo, 10, 64); err == nil || lo == "" {
+						if n, ok := constSliceLen(cm.Args[1]); ok {
+							if dn, okd := constSliceLen(v); !okd || n <= dn {
+								w.pieceLo, w.pieceLen = l, n
+								w.src = func() string { return t.Term(cm.Args[1]) }
+							}
+						}
+					}
+					ws = append(ws, w)
 				case (id == "golang.org/x/crypto/curve25519.ScalarMult") && cm.Args[0] == v:
 					ws = append(ws, writer{in: x, term: func() string { return "X25519(" + t.Term(cm.Args[1]) + "," + t.Term(cm.Args[2]) + ")" }})
 				case (id == "golang.org/x/crypto/curve25519.ScalarBaseMult") && cm.Args[0] == v:
@@ -345,7 +369,48 @@ func (t *termer) allocTerm(a *ssa.Alloc, load ssa.Instruction) string {
 		}
 		return t.fail("local object at %s is never written", t.p.Pos(a.Pos()))
 	}
-	// writers into disjoint offsets (fill pattern): all must dominate
+	// a fill pattern: copies of known lengths to constant offsets, each dominating the use, that
+	// tile the whole object without overlap — the content is their concatenation in offset order
+	if total, okT := constLen(a.Type()); okT && at != nil {
+		var pieces []*writer
+		tiled := true
+		for i := range ws {
+			w := &ws[i]
+			if w.in == at {
+				continue
+			}
+			reaches := instrDominates(w.in, at) || canReachWithout(w.in, at, nil)
+			if !reaches {
+				continue
+			}
+			if w.unknown != "" || w.src == nil || w.pieceLo < 0 || !instrDominates(w.in, at) || blockOnCycle(w.in.Block()) {
+				tiled = false
+				break
+			}
+			pieces = append(pieces, w)
+		}
+		if tiled && len(pieces) >= 2 {
+			sort.Slice(pieces, func(i, j int) bool { return pieces[i].pieceLo < pieces[j].pieceLo })
+			off := int64(0)
+			for _, w := range pieces {
+				if w.pieceLo != off {
+					tiled = false
+				}
+				off += w.pieceLen
+			}
+			if tiled && off == total {
+				var parts []string
+				for _, w := range pieces {
+					saved := t.at
+					t.at = w.in
+					parts = append(parts, w.src())
+					t.at = saved
+				}
+				return catTerms(parts)
+			}
+		}
+	}
+	// otherwise the last whole-object writer that dominates the use
 	var best *writer
 	for i := range ws {
 		w := &ws[i]
@@ -807,4 +872,47 @@ func (p *Prog) forwardedFieldStore(load *ssa.UnOp, k FieldKey, base ssa.Value) *
 		return nil
 	}
 	return best
+}
+
+// constSliceLen: the length of a slice / array value where it is a compile-time constant.
+func constSliceLen(v ssa.Value) (int64, bool) {
+	v = unspill(v)
+	if n, ok := constLen(v.Type()); ok {
+		return n, true
+	}
+	switch x := v.(type) {
+	case *ssa.Slice:
+		lo := int64(0)
+		if x.Low != nil {
+			k, ok := intConst(x.Low)
+			if !ok {
+				return 0, false
+			}
+			lo = k
+		}
+		if x.High != nil {
+			k, ok := intConst(x.High)
+			if !ok {
+				return 0, false
+			}
+			return k - lo, true
+		}
+		if n, ok := constLen(x.X.Type()); ok {
+			return n - lo, true
+		}
+		if n, ok := constSliceLen(x.X); ok {
+			return n - lo, true
+		}
+	case *ssa.MakeSlice:
+		return intConst(x.Len)
+	case *ssa.Convert:
+		if s, ok := constString(x.X); ok {
+			return int64(len(s)), true
+		}
+	case *ssa.Const:
+		if s, ok := constString(x); ok {
+			return int64(len(s)), true
+		}
+	}
+	return 0, false
 }
